@@ -266,3 +266,319 @@ Print Assumptions C15_no_panic.
 Print Assumptions C15_inject.
 Print Assumptions C15_inject_target_chain_rejected.
 Print Assumptions C15_same_request_same_digest.
+
+(* ================================================================================================================================
+   Extension X6 — governance END TO END: operator request -> conversion -> injection at N operators' nodes -> observations ->
+   quorum -> published bytes -> Alephium contract (model/GovPipeline.v composes Governance.v, Processor.v / System.v, Vaa.v,
+   Contracts.v and the generated Ralph functions; proofs/GovPipelineProofs.v).  [recover], [keccak], the signers are oracles
+   (universally quantified).  *)
+From WH Require Import model.Processor model.ProcSpec model.System model.GovPipeline
+     proofs.VaaProofs proofs.ProcC01Proofs proofs.ProcC02Proofs proofs.SystemProofs proofs.SystemLiveProofs proofs.GovPipelineProofs.
+From WH Require model.Contracts.
+Import ExtractedGov.RalGlue.
+
+(* what the composition relies on in the Go glue, read from the source on every run: handleInjection / broadcastSignature write no
+   field of the VAA they were handed (a per-node timestamp / set index would make the operators sign different digests); the send
+   on injectC precedes the store of the digest *)
+Theorem C15_injection_hands_the_vaa_over_unchanged : go_injection_writes = [] /\ go_inj_send_before_store = true.
+Proof. exact injection_shape. Qed.
+
+(* (e) the loop of InjectGovernanceVAA as adminserver.go writes it — `digests` allocated with its final length, message i's digest
+   stored in slot [go_inj_slot i n] (generated from the index expression) — is the append loop of model/Governance.v ... *)
+Theorem C15_rpc_loop_is_the_model_loop : forall keccak c q, inject_rpc keccak c q = inject keccak c (q_ts q) (q_gsi q) (q_msgs q).
+Proof. exact inject_rpc_is_inject. Qed.
+
+(* ... so the response carries one digest per message IN THE ORDER OF THE MESSAGES: digest k is the digest of the VAA message k
+   converts to, which is the k-th VAA put on injectC *)
+Theorem C15_rpc_digest_order : forall keccak c q sent ds, inject_rpc keccak c q = (sent, IOk ds) ->
+  length ds = length (q_msgs q) /\ length sent = length (q_msgs q) /\
+  forall k m, nth_error (q_msgs q) k = Some m ->
+    exists v, gm_tchain m <= 65535 /\ conv c (env_of (q_ts q) (q_gsi q) m) (gm_payload m) = GOk v /\
+              nth_error sent k = Some v /\ nth_error ds k = Some (digest keccak v).
+Proof. exact rpc_digest_order. Qed.
+
+(* (a) every operator's call hands the SAME VAAs, in the same order, to its node and gets the same response ... *)
+Theorem C15_same_request_same_vaas_at_every_node : forall keccak c q i j,
+  snd (admin_rpc keccak c i q) = snd (admin_rpc keccak c j q) /\
+  exists sent, fst (admin_rpc keccak c i q) = map (fun v => NEnv i (EInject v)) sent /\
+               fst (admin_rpc keccak c j q) = map (fun v => NEnv j (EInject v)) sent /\ sent = fst (inject_rpc keccak c q).
+Proof. exact admin_rpc_same_everywhere. Qed.
+
+(* ... and each node signs exactly [digest keccak v] — a function of configuration and request — with its own key, and gossips it *)
+Theorem C15_operator_signs_the_request_digest : forall recover keccak gov_chain gov_addr owns signs n i st v,
+  nth_error (nodes n) i = Some st ->
+  In (SendObs {| o_addr := owns i; o_hash := digest keccak v; o_sig := signs i (digest keccak v); o_tx := [] |})
+     (snd (nstep recover keccak gov_chain gov_addr owns signs n (NEnv i (EInject v)))) /\
+  In (GObs {| o_addr := owns i; o_hash := digest keccak v; o_sig := signs i (digest keccak v); o_tx := [] |})
+     (pool (fst (nstep recover keccak gov_chain gov_addr owns signs n (NEnv i (EInject v))))).
+Proof. exact operator_signs_request_digest. Qed.
+
+(* one node: C02's liveness for INJECTIONS plus the form of what is published: after ANY pre-history, over ANY window without set
+   change / cleanup tick in which the node is handed v, observations of a quorum of G arrive (any order, duplicates, interleaved
+   with anything) and the own signature loops back, the node broadcasts [marshal (set_sigs v sg)] — v itself, not another VAA —
+   with a valid quorum sg of G.  [no_alias]: no OTHER own VAA of the node is filed under v's digest (entries are keyed by digest;
+   this is the one place a Keccak collision would matter, stated as a hypothesis about the history, not about Keccak) *)
+Theorem C15_injected_vaa_is_published_with_quorum :
+  forall recover keccak sign own gov_chain gov_addr G v,
+  (forall b, length (keccak b) = 32%nat) -> length own = 20%nat ->
+  (forall d, length d = 32%nat -> Processor.rec recover d (sign d) = Some own) -> In own (keys G) ->
+  forall ops0 ops (signers : list addr),
+  Forall op_wf ops0 -> Forall op_wf ops -> forallb calm ops = true -> all_ops (no_alias keccak v) ops ->
+  let stp := fun st o => fst (step recover keccak sign own gov_chain gov_addr st o) in
+  let st0 := fst (run recover keccak sign own gov_chain gov_addr init ops0) in
+  let st := fst (run recover keccak sign own gov_chain gov_addr st0 ops) in
+  let h := dg keccak v in
+  cur st0 = Some G -> alookup h (agg st0) = None -> gs_wf G ->
+  happens stp (ev_inj v) st0 ops ->
+  NoDup signers -> incl signers (keys G) -> go_quorum (Z.of_nat (length (keys G))) <= Z.of_nat (length signers) ->
+  (forall a, In a signers -> a <> own -> happens stp (ev_obs recover h a) st0 ops) ->
+  (forall o, In o (loopq st) -> o_hash o <> h) ->
+  happens stp (fun s o => exists sg, In (SendVAA (marshal (set_sigs v sg))) (snd (step recover keccak sign own gov_chain gov_addr s o)) /\
+                                     qvalid recover keccak (set_sigs v sg) (keys G)) st0 ops.
+Proof. exact inject_window_publishes. Qed.
+
+(* the network: N nodes, any pre-history, any fair window *)
+Theorem C15_network_publishes_the_request_vaa :
+  forall recover keccak gov_chain gov_addr owns signs, (forall b, length (keccak b) = 32%nat) ->
+  forall N xs0 xs i G v (S : list nat),
+  (i < N)%nat -> Forall nop_wf xs0 -> Forall nop_wf xs ->
+  let stp := fun n x => fst (nstep recover keccak gov_chain gov_addr owns signs n x) in
+  let n0 := fst (nrun recover keccak gov_chain gov_addr owns signs (ninit N) xs0) in
+  let n1 := fst (nrun recover keccak gov_chain gov_addr owns signs n0 xs) in
+  let h := dg keccak v in
+  (forall st0, nth_error (nodes n0) i = Some st0 -> cur st0 = Some G /\ alookup h (agg st0) = None) -> gs_wf G ->
+  (forall x, In x xs -> target x = i -> calm_nop x = true) ->
+  (forall x, In x xs -> target x = i -> no_alias_nop keccak v x) ->
+  NoDup (map owns S) -> (forall j, In j S -> honest_member recover owns signs G j) ->
+  go_quorum (Z.of_nat (length (keys G))) <= Z.of_nat (length S) -> In i S ->
+  happens stp (ev_injects i v) n0 xs ->
+  (forall j, In j S -> j <> i -> happens stp (ev_delivered owns signs i j h) n0 xs) ->
+  (forall st, nth_error (nodes n1) i = Some st -> forall o, In o (loopq st) -> o_hash o <> h) ->
+  happens stp (ev_gov_published recover keccak gov_chain gov_addr owns signs i v G) n0 xs.
+Proof. exact net_gov_publishes. Qed.
+
+(* the contract side, envelope: governance.ral parseAndVerifyVAA(data, true) on the bytes a guardian publishes, by a contract that
+   holds the VAA's set as its current set — version, governance set-index test, guardian-set size test, QUORUM test (c), the
+   SIGNATURE LOOP (strictly increasing indices, key slot of the stored set = ethEcRecover! of r ++ s ++ (v + 27)) all pass, and it
+   returns the fields the Go serializer wrote (C04's slices), in the order its `return` lists them *)
+Theorem C15_contract_envelope_parser_accepts_published : forall recover keccak ct w K,
+  qvalid recover keccak w K -> wf w -> Forall (fun k => length k = 20%nat) K -> (0 < length K <= 255)%nat ->
+  rc_gs_index ct = gsidx w -> rc_guardians ct = guardians_of K ->
+  ral_receive recover keccak ct (marshal w) =
+  Some (ral_vaa_returns (RZ (echain w)) (RZ (tchain w)) (RB (eaddr w)) (RZ (seq w)) (RB (payload w))).
+Proof. exact ral_receive_published. Qed.
+
+(* (b) + (c) the contract side, whole entry point, for EVERY request kind k: the generic check (emitter = the configured governance
+   emitter, sequence >= the expected one, module, action) passes on the wire bytes exactly as C15's [accepted_by] says for the
+   envelope values, the entry point's generated payload parser runs on exactly the request's target chain and payload (the
+   positional hand-over between the Ralph functions is generated), receivedSequence becomes the request's sequence + 1 *)
+Theorem C15_contract_executes_request : forall recover keccak k c e v sg G local tseq r,
+  envelope_ok c e v -> req_wf c e -> payload v <> [] ->
+  qvalid recover keccak (set_sigs v sg) (keys G) -> Forall (fun a => length a = 20%nat) (keys G) -> (0 < length (keys G) <= 255)%nat ->
+  e_gsi e = gidx G -> accepted_by (module_of k) (action_of k) c e v -> tseq <= e_seq e ->
+  payload_parser k (contract_for c local tseq G) (RZ (e_tchain e)) (RB (payload v)) = Some r ->
+  ral_execute recover keccak k (contract_for c local tseq G) (marshal (set_sigs v sg)) = Some (r, Some (RZ (e_seq e + 1))).
+Proof. exact contract_executes_request. Qed.
+
+(* the whole chain in one statement *)
+Theorem C15_governance_end_to_end :
+  forall recover keccak gov_chain gov_addr owns signs, (forall b, length (keccak b) = 32%nat) ->
+  forall N xs0 xs i G (S : list nat) k c e v local tseq r,
+  (i < N)%nat -> Forall nop_wf xs0 -> Forall nop_wf xs ->
+  let stp := fun n x => fst (nstep recover keccak gov_chain gov_addr owns signs n x) in
+  let n0 := fst (nrun recover keccak gov_chain gov_addr owns signs (ninit N) xs0) in
+  let n1 := fst (nrun recover keccak gov_chain gov_addr owns signs n0 xs) in
+  let h := dg keccak v in
+  envelope_ok c e v -> req_wf c e -> payload v <> [] -> accepted_by (module_of k) (action_of k) c e v ->
+  (forall st0, nth_error (nodes n0) i = Some st0 -> cur st0 = Some G /\ alookup h (agg st0) = None) -> gs_wf G ->
+  (forall x, In x xs -> target x = i -> calm_nop x = true) ->
+  (forall x, In x xs -> target x = i -> no_alias_nop keccak v x) ->
+  NoDup (map owns S) -> (forall j, In j S -> honest_member recover owns signs G j) ->
+  go_quorum (Z.of_nat (length (keys G))) <= Z.of_nat (length S) -> In i S ->
+  happens stp (ev_injects i v) n0 xs ->
+  (forall j, In j S -> j <> i -> happens stp (ev_delivered owns signs i j h) n0 xs) ->
+  (forall st, nth_error (nodes n1) i = Some st -> forall o, In o (loopq st) -> o_hash o <> h) ->
+  Forall (fun a => length a = 20%nat) (keys G) -> (length (keys G) <= 255)%nat -> e_gsi e = gidx G -> tseq <= e_seq e ->
+  payload_parser k (contract_for c local tseq G) (RZ (e_tchain e)) (RB (payload v)) = Some r ->
+  happens stp (ev_executable recover keccak gov_chain gov_addr owns signs i k (contract_for c local tseq G) r (e_seq e + 1)) n0 xs.
+Proof. exact gov_end_to_end. Qed.
+
+(* composed with the per-kind theorems above, e.g. a message-fee request: the contract sets messageFee to the number the hex string
+   denotes; a minimal-consistency-level request on the token bridge: the level itself *)
+Theorem C15_e2e_message_fee : forall recover keccak c e fee v sg G tseq,
+  conv_message_fee c e fee = GOk v -> req_wf c e ->
+  qvalid recover keccak (set_sigs v sg) (keys G) -> Forall (fun a => length a = 20%nat) (keys G) -> (0 < length (keys G) <= 255)%nat ->
+  e_gsi e = gidx G -> tseq <= e_seq e ->
+  exists b, hex_decode fee = Some b /\ length b = 32%nat /\
+  ral_execute recover keccak KMessageFee (contract_for c (e_tchain e) tseq G) (marshal (set_sigs v sg)) =
+  Some (([], [("fee"%string, RZ (unbe b)); ("messageFee"%string, RZ (unbe b))]), Some (RZ (e_seq e + 1))).
+Proof.
+  intros recover keccak c e fee v sg G tseq Hc Hreq Hq FK LK Hg Ht.
+  destruct (message_fee_spec c e fee v Hc) as (He & b & Hb & Lb & Hp & Hacc & Hpar).
+  exists b. split; [exact Hb|]. split; [exact Lb|].
+  apply (contract_executes_request recover keccak KMessageFee c e v sg G (e_tchain e) tseq); try assumption.
+  - rewrite Hp. discriminate.
+  - cbn [payload_parser contract_for rc_chain]. destruct He as (_ & _ & _ & _ & _ & _ & _ & E8 & _). rewrite <- E8 at 1. exact Hpar.
+Qed.
+
+Theorem C15_e2e_min_level : forall recover keccak c e level v sg G tseq,
+  conv_min_level c e level = GOk v -> 0 <= level -> req_wf c e ->
+  qvalid recover keccak (set_sigs v sg) (keys G) -> Forall (fun a => length a = 20%nat) (keys G) -> (0 < length (keys G) <= 255)%nat ->
+  e_gsi e = gidx G -> tseq <= e_seq e ->
+  ral_execute recover keccak KMinLevel (contract_for c (e_tchain e) tseq G) (marshal (set_sigs v sg)) =
+  Some (([], [("consistencyLevel"%string, RZ level); ("minimalConsistencyLevel"%string, RZ level)]), Some (RZ (e_seq e + 1))).
+Proof.
+  intros recover keccak c e level v sg G tseq Hc Hl Hreq Hq FK LK Hg Ht.
+  destruct (min_level_spec c e level v Hc Hl) as (He & _ & Hp & Hacc & Hpar).
+  apply (contract_executes_request recover keccak KMinLevel c e v sg G (e_tchain e) tseq); try assumption.
+  - rewrite Hp. discriminate.
+  - cbn [payload_parser contract_for rc_chain]. destruct He as (_ & _ & _ & _ & _ & _ & _ & E8 & _). rewrite <- E8 at 1. exact Hpar.
+Qed.
+
+(* guardian-set upgrade: the contract (chain id = the target chain, or target chain 0) stores the requested keys under index + 1 *)
+Theorem C15_e2e_guardian_set : forall recover keccak c e guardians v sg G tseq chainId,
+  conv_guardian_set c e guardians = GOk v -> e_gsi e + 1 < 4294967296 -> e_tchain e = chainId \/ e_tchain e = 0 -> req_wf c e ->
+  qvalid recover keccak (set_sigs v sg) (keys G) -> Forall (fun a => length a = 20%nat) (keys G) -> (0 < length (keys G) <= 255)%nat ->
+  e_gsi e = gidx G -> tseq <= e_seq e ->
+  let newkeys := map hex_to_address guardians in
+  ral_execute recover keccak KGuardianSet (contract_for c chainId tseq G) (marshal (set_sigs v sg)) =
+  Some (([], [("newGuardianSetIndex"%string, RZ (e_gsi e + 1)); ("newGuardianSetSize"%string, RZ (Z.of_nat (length newkeys)));
+              ("payloadSize"%string, RZ (38 + Z.of_nat (length newkeys) * 20)); ("guardianSetIndexes[1]"%string, RZ (e_gsi e + 1));
+              ("guardianSets[1]"%string, RB (guardians_of newkeys))]), Some (RZ (e_seq e + 1))).
+Proof.
+  intros recover keccak c e guardians v sg G tseq chainId Hc Hi Htc Hreq Hq FK LK Hg Ht. cbv zeta.
+  assert (H0 : 0 <= e_gsi e) by (destruct Hreq as (_ & [R _] & _); exact R).
+  destruct (guardian_set_spec c e guardians v chainId Hc H0 Hi Htc) as (He & _ & _ & _ & _ & Hp & Hacc & Hpar).
+  apply (contract_executes_request recover keccak KGuardianSet c e v sg G chainId tseq); try assumption.
+  - rewrite Hp. discriminate.
+  - cbn [payload_parser contract_for rc_chain rc_gs_index]. destruct He as (_ & _ & _ & _ & _ & _ & _ & E8 & _). rewrite <- E8 at 1. rewrite <- Hg. exact Hpar.
+Qed.
+
+(* (d) two operators injecting DIFFERENT requests never contribute to one VAA.  Entries are keyed by digest: a VAA / an observation
+   of another digest leaves the entry of h untouched (no hash assumption) ... *)
+Theorem C15_other_digest_other_entry : forall recover keccak gov_chain gov_addr sign own st o h,
+  match o with Inject v' => dg keccak v' <> h | Obs ob => o_hash ob <> h | _ => False end ->
+  (exists O L, Inv1 recover keccak O L st) ->
+  alookup h (agg (fst (step recover keccak sign own gov_chain gov_addr st o))) = alookup h (agg st).
+Proof. exact other_digest_other_entry. Qed.
+
+(* ... requests that differ in any body field have different bodies (C04); where Keccak does not collide on THESE two bodies — the
+   explicit hypothesis — their digests differ and the second request's VAA does not touch the first's entry ... *)
+Theorem C15_different_requests_separate_entries : forall recover keccak gov_chain gov_addr sign own v1 v2 st,
+  wf v1 -> wf v2 ->
+  (ts v1, nonce v1, echain v1, tchain v1, eaddr v1, seq v1, cl v1, payload v1) <>
+  (ts v2, nonce v2, echain v2, tchain v2, eaddr v2, seq v2, cl v2, payload v2) ->
+  (keccak (keccak (body v1)) = keccak (keccak (body v2)) -> body v1 = body v2) ->
+  (exists O L, Inv1 recover keccak O L st) ->
+  dg keccak v1 <> dg keccak v2 /\
+  alookup (dg keccak v1) (agg (fst (step recover keccak sign own gov_chain gov_addr st (Inject v2)))) = alookup (dg keccak v1) (agg st).
+Proof. exact different_requests_separate_entries. Qed.
+
+(* ... and whatever is filed under a digest, at any node after any network history, verifies over THAT digest; a published VAA
+   consists of signatures over its own digest by the members its indices name.  An operator's signature over another request's
+   digest is therefore part of this VAA only if it also verifies over this digest — a property of the recovery oracle *)
+Theorem C15_recorded_signatures_verify_over_their_digest : forall recover keccak gov_chain gov_addr owns signs N xs i st h e a s,
+  Forall nop_wf xs -> nth_error (nodes (fst (nrun recover keccak gov_chain gov_addr owns signs (ninit N) xs))) i = Some st ->
+  In (h, e) (agg st) -> In (a, s) (esigs e) -> Processor.rec recover h s = Some a.
+Proof. exact recorded_signatures_verify_over_their_digest. Qed.
+
+Theorem C15_published_signatures_are_over_its_own_digest : forall recover keccak w K s, qvalid recover keccak w K -> In s (sigs w) ->
+  exists a, Processor.rec recover (dg keccak w) (s_data s) = Some a /\ nth_error K (Z.to_nat (s_idx s)) = Some a.
+Proof. exact published_signatures_over_own_digest. Qed.
+
+(* ------------------------------------------------------------------ the hypotheses are satisfiable: three operators (toy oracles),
+   set {0, 1, 2} (quorum 3), every operator submits the same minimal-consistency-level request; node 0 receives the other two
+   observations; it publishes, and the token-bridge entry point executes the published bytes *)
+Definition gx_owns (i : nat) : addr := repeat (byte_of_Z (Z.of_nat i + 1)) 20.
+Definition gx_signs (i : nat) (d : bytes) : bytes := gx_owns i ++ repeat x00 45.
+Definition gx_recover (h s : bytes) : option bytes := Some (firstn 20 s).
+Definition gx_keccak (b : bytes) : bytes := firstn 32 (b ++ repeat x00 32).
+Definition gx_G : gset := {| keys := [gx_owns 0; gx_owns 1; gx_owns 2]; gidx := 3 |}.
+Definition gx_q : gov_req := {| q_ts := 1700000000; q_gsi := 3; q_msgs := [{| gm_seq := 42; gm_nonce := 7; gm_tchain := 255; gm_payload := PMinLevel 3 |}] |}.
+Definition gx_v : vaa := create_governance_vaa ex_cfg ex_env (go_TokenBridgeModule ++ [xf1; x03]).
+Definition gx_pre : list nop := [NEnv 0 (ESetGS gx_G); NEnv 1 (ESetGS gx_G); NEnv 2 (ESetGS gx_G)].
+Definition gx_win : list nop := fst (admin_rpc gx_keccak ex_cfg 1 gx_q) ++ fst (admin_rpc gx_keccak ex_cfg 2 gx_q) ++ fst (admin_rpc gx_keccak ex_cfg 0 gx_q)
+                                ++ [NAdv 0 (GVaa [x00]); NDeliver 0 1; NLoop 0 0; NDeliver 0 0; NDeliver 0 0].
+
+Lemma gx_win_eq : gx_win = [NEnv 1 (EInject gx_v); NEnv 2 (EInject gx_v); NEnv 0 (EInject gx_v); NAdv 0 (GVaa [x00]); NDeliver 0 1; NLoop 0 0; NDeliver 0 0; NDeliver 0 0].
+Proof. vm_compute. reflexivity. Qed.
+
+Example C15_end_to_end_premises_satisfiable :
+  let stp := fun n x => fst (nstep gx_recover gx_keccak 1 (repeat x00 32) gx_owns gx_signs n x) in
+  let n0 := fst (nrun gx_recover gx_keccak 1 (repeat x00 32) gx_owns gx_signs (ninit 3) gx_pre) in
+  let n1 := fst (nrun gx_recover gx_keccak 1 (repeat x00 32) gx_owns gx_signs n0 gx_win) in
+  let h := dg gx_keccak gx_v in
+  conv ex_cfg ex_env (PMinLevel 3) = GOk gx_v /\ gx_win = [NEnv 1 (EInject gx_v); NEnv 2 (EInject gx_v); NEnv 0 (EInject gx_v); NAdv 0 (GVaa [x00]); NDeliver 0 1; NLoop 0 0; NDeliver 0 0; NDeliver 0 0] /\
+  (forall b, length (gx_keccak b) = 32%nat) /\ Forall nop_wf gx_pre /\ Forall nop_wf gx_win /\
+  envelope_ok ex_cfg ex_env gx_v /\ req_wf ex_cfg ex_env /\ payload gx_v <> [] /\
+  (forall st0, nth_error (nodes n0) 0 = Some st0 -> cur st0 = Some gx_G /\ alookup h (agg st0) = None) /\ gs_wf gx_G /\
+  (forall x, In x gx_win -> target x = 0%nat -> calm_nop x = true /\ no_alias_nop gx_keccak gx_v x) /\
+  NoDup (map gx_owns [0; 1; 2]%nat) /\ (forall j, In j [0; 1; 2]%nat -> honest_member gx_recover gx_owns gx_signs gx_G j) /\
+  go_quorum (Z.of_nat (length (keys gx_G))) <= Z.of_nat (length [0; 1; 2]%nat) /\
+  happens stp (ev_injects 0 gx_v) n0 gx_win /\
+  happens stp (ev_delivered gx_owns gx_signs 0 1 h) n0 gx_win /\ happens stp (ev_delivered gx_owns gx_signs 0 2 h) n0 gx_win /\
+  (forall st, nth_error (nodes n1) 0 = Some st -> forall o, In o (loopq st) -> o_hash o <> h) /\
+  Forall (fun a => length a = 20%nat) (keys gx_G) /\ e_gsi ex_env = gidx gx_G /\
+  (* ... and the conclusion, computed: some step of node 0 broadcasts bytes the token-bridge entry point executes *)
+  exists b, In (SendVAA b) (concat (snd (nrun gx_recover gx_keccak 1 (repeat x00 32) gx_owns gx_signs n0 gx_win))) /\
+    ral_execute gx_recover gx_keccak KMinLevel (contract_for ex_cfg 255 42 gx_G) b =
+    Some (([], [("consistencyLevel"%string, RZ 3); ("minimalConsistencyLevel"%string, RZ 3)]), Some (RZ 43)).
+Proof.
+  assert (Hwf : gs_wf gx_G).
+  { split; [|cbn; lia]. repeat (constructor; [cbn; intuition discriminate|]). constructor. }
+  cbv zeta.
+  split; [vm_compute; reflexivity|].
+  split; [exact gx_win_eq|].
+  split; [intros b; unfold gx_keccak; rewrite firstn_length, app_length, repeat_length; lia|].
+  split; [repeat (constructor; [exact Hwf|]); constructor|].
+  split; [rewrite gx_win_eq; repeat (constructor; [exact I|]); constructor|].
+  split; [apply create_envelope|].
+  split; [unfold req_wf, rng; cbn; repeat split; lia|].
+  split; [vm_compute; discriminate|].
+  split; [intros st0 H; vm_compute in H; inversion H; subst st0; split; vm_compute; reflexivity|].
+  split; [exact Hwf|].
+  split; [intros x Hx Ht; rewrite gx_win_eq in Hx; repeat (destruct Hx as [<-|Hx]; [split; [reflexivity|cbn [no_alias_nop]; auto]|]); destruct Hx|].
+  split; [repeat (constructor; [cbn; intuition discriminate|]); constructor|].
+  split; [intros j [<-|[<-|[<-|[]]]]; (split; [cbn; tauto|split; [reflexivity|]]); intros d Hd; unfold Processor.rec, recover_checked; rewrite Hd; reflexivity|].
+  split; [vm_compute; discriminate|].
+  split; [rewrite gx_win_eq; cbn [happens]; right; right; left; reflexivity|].
+  split; [rewrite gx_win_eq; cbn [happens]; right; right; right; right; right; right; left; exists 0%nat, []; split; [reflexivity|vm_compute; reflexivity]|].
+  split; [rewrite gx_win_eq; cbn [happens]; right; right; right; right; left; exists 1%nat, []; split; [reflexivity|vm_compute; reflexivity]|].
+  split; [intros st H; vm_compute in H; inversion H; subst st; intros o []|].
+  split; [repeat (constructor; [reflexivity|]); constructor|].
+  split; [reflexivity|].
+  eexists. split; [vm_compute; repeat (first [left; reflexivity|right])|vm_compute; reflexivity].
+Qed.
+
+(* the RPC as the source indexes it, on a two-message request: the digests come back in the order of the messages *)
+Example C15_rpc_digest_order_ex : forall keccak, exists v1 v2,
+  inject_rpc keccak ex_cfg {| q_ts := 1700000000; q_gsi := 3;
+                              q_msgs := [{| gm_seq := 42; gm_nonce := 7; gm_tchain := 255; gm_payload := PMinLevel 3 |};
+                                         {| gm_seq := 44; gm_nonce := 9; gm_tchain := 0; gm_payload := PMinLevel 4 |}] |} =
+  ([v1; v2], IOk [digest keccak v1; digest keccak v2]) /\ seq v1 = 42 /\ seq v2 = 44.
+Proof. intros keccak. eexists. eexists. split; [reflexivity|split; reflexivity]. Qed.
+
+(* two requests that differ in the sequence only: different bodies *)
+Example C15_different_requests_ex :
+  let v1 := create_governance_vaa ex_cfg ex_env (go_TokenBridgeModule ++ [xf1; x03]) in
+  let v2 := create_governance_vaa ex_cfg {| e_ts := 1700000000; e_gsi := 3; e_nonce := 7; e_seq := 43; e_tchain := 255 |} (go_TokenBridgeModule ++ [xf1; x03]) in
+  wfb v1 = true /\ wfb v2 = true /\ body v1 <> body v2 /\ dg gx_keccak v1 = dg gx_keccak v2.
+Proof. cbv zeta. repeat split; try (vm_compute; reflexivity). vm_compute. discriminate. Qed.
+
+Print Assumptions C15_injection_hands_the_vaa_over_unchanged.
+Print Assumptions C15_rpc_loop_is_the_model_loop.
+Print Assumptions C15_rpc_digest_order.
+Print Assumptions C15_same_request_same_vaas_at_every_node.
+Print Assumptions C15_operator_signs_the_request_digest.
+Print Assumptions C15_injected_vaa_is_published_with_quorum.
+Print Assumptions C15_network_publishes_the_request_vaa.
+Print Assumptions C15_contract_envelope_parser_accepts_published.
+Print Assumptions C15_contract_executes_request.
+Print Assumptions C15_governance_end_to_end.
+Print Assumptions C15_e2e_message_fee.
+Print Assumptions C15_e2e_min_level.
+Print Assumptions C15_e2e_guardian_set.
+Print Assumptions C15_other_digest_other_entry.
+Print Assumptions C15_different_requests_separate_entries.
+Print Assumptions C15_recorded_signatures_verify_over_their_digest.
+Print Assumptions C15_published_signatures_are_over_its_own_digest.
